@@ -58,6 +58,8 @@ def b_int(interp, x=0):
     if isinstance(x, ModelObject) and hasattr(x, "pv_int"):
         return x.pv_int(interp.cx)
     if isinstance(x, str):
+        if x.strip().lstrip("+-").isdigit():
+            return int(x)
         raise Unsupported("int() of a string")
     if isinstance(x, Arr):
         if x.ndim == 0:
